@@ -191,6 +191,10 @@ func c04Families(c *Check) []BashCase {
 		"duplicate-case-calls-tagless": {Switch{Cases: []SwitchCase{{E: Bf(1, false), Body: []Stmt{pr(sl("first"))}}, {E: Bf(1, false), Body: []Stmt{pr(sl("second"))}}, {E: Bf(2, true), Body: []Stmt{pr(sl("third"))}}, {E: Bf(2, true), Body: []Stmt{pr(sl("fourth"))}}}}},
 		"duplicate-case-counter":       {def("tick", il(0)), fn("next", nil, []Type{TInt}, IncDec{"tick", true}, IncDec{"cnt", true}, ret(vr("tick"))), Switch{Tag: il(2), Cases: []SwitchCase{{E: call("next"), Body: []Stmt{pr(sl("one"))}}, {E: call("next"), Body: []Stmt{pr(sl("two"))}}, {E: call("next"), Body: []Stmt{pr(sl("three"))}}}}, pr(vr("tick"))},
 		"duplicate-if-conditions":      {If{Branches: []IfBranch{{Bf(1, false), []Stmt{pr(sl("a"))}}, {Bf(1, false), []Stmt{pr(sl("b"))}}, {Bf(1, true), []Stmt{pr(sl("c"))}}}, HasElse: true, Else: []Stmt{pr(sl("d"))}}},
+		"if-chain-same-left-operand":   {def("tick", il(0)), fn("next", nil, []Type{TInt}, IncDec{"tick", true}, IncDec{"cnt", true}, pr(sl("next"), vr("tick")), ret(vr("tick"))), If{Branches: []IfBranch{{cmp("==", call("next"), T(5)), []Stmt{pr(sl("a"))}}, {cmp("==", call("next"), T(2)), []Stmt{pr(sl("b"))}}, {cmp("==", call("next"), T(9)), []Stmt{pr(sl("c"))}}}, HasElse: true, Else: []Stmt{pr(sl("d"))}}, pr(vr("tick"))},
+		"if-chain-same-right-operand":  {If{Branches: []IfBranch{{cmp("==", T(1), T(7)), []Stmt{pr(sl("a"))}}, {cmp("==", T(2), T(7)), []Stmt{pr(sl("b"))}}, {cmp("<", T(3), T(7)), []Stmt{pr(sl("c"))}}}}},
+		"continue-in-else-if-of-for3":  {For{Kind: ForThree, Init: def("i", T(0)), Cond: cmp("<", vr("i"), T(4)), Post: OpAssign{"i", "+", T(1)}, Body: []Stmt{If{Branches: []IfBranch{{cmp("==", vr("i"), il(9)), []Stmt{pr(sl("never"))}}, {cmp("==", vr("i"), il(1)), []Stmt{Continue{}}}}, HasElse: true, Else: []Stmt{pr(sl("else"), vr("i"))}}, pr(sl("body"), vr("i"))}}},
+		"continue-in-later-case-of-for3": {For{Kind: ForThree, Init: def("i", il(0)), Cond: cmp("<", vr("i"), il(4)), Post: OpAssign{"i", "+", T(1)}, Body: []Stmt{Switch{Tag: vr("i"), Cases: []SwitchCase{{E: il(7), Body: []Stmt{pr(sl("seven"))}}, {E: il(1), Body: []Stmt{Continue{}}}, {E: il(2), Body: []Stmt{pr(sl("two")), Continue{}}}, {Default: true, Body: []Stmt{pr(sl("default"), vr("i"))}}}}, pr(sl("body"), vr("i"))}}},
 		"same-call-both-sides":         {pr(cmp("==", T(1), T(1)), bin("+", T(2), T(2)), logic("&&", Bf(3, true), Bf(3, true)))},
 	}
 	for _, k := range sortedStmtKeys(sw) {
@@ -206,6 +210,14 @@ func c04Families(c *Check) []BashCase {
 			}
 		}
 		cases = append(cases, BashCase{Key: "E/repeated-expressions/" + k + "/func", Prog: SingleFile(append(append(c04Prelude(), fnDefs...), fn("ctx", nil, nil, fnBody...), callS("ctx"), callS("ctx"), final))})
+	}
+	// operands that read the state of the file system stand before a call that changes it, in one statement
+	fsCases := map[string][]Stmt{
+		"exists-then-create": {fn("create", []Param{{"p", TString}}, []Type{TBool}, IncDec{"cnt", true}, Write{Path: vr("p"), Data: sl("made")}, ret(bl(true))), pr(Exists{sl("late.txt")}, call("create", sl("late.txt")), Exists{sl("late.txt")}), def("both", logic("||", Exists{sl("late2.txt")}, Not{call("create", sl("late2.txt"))})), pr(vr("both"))},
+		"read-then-change":   {fn("change", []Param{{"p", TString}}, []Type{TString}, IncDec{"cnt", true}, Write{Path: vr("p"), Data: sl("new")}, ret(sl("changed"))), Write{Path: sl("doc.txt"), Data: sl("old")}, pr(Read{sl("doc.txt")}, call("change", sl("doc.txt")), Read{sl("doc.txt")}), def("j", bin("+", bin("+", Read{sl("doc.txt")}, call("change", sl("doc.txt"))), Itoa{Len{Read{sl("doc.txt")}}})), pr(vr("j"))},
+	}
+	for _, k := range sortedStmtKeys(fsCases) {
+		cases = append(cases, BashCase{Key: "E/file-state/" + k + "/top", Prog: SingleFile(append(append(c04Prelude(), fsCases[k]...), final))})
 	}
 	// arguments of command calls: every stage's arguments in source order, over the whole chain
 	for _, plen := range []int{1, 2, 3} {
